@@ -1,12 +1,1150 @@
-//! C05 - (to be written)
+//! C05 - ciphertext multiplication (tensor, relinearise, plain, constant) scales right (exploration, E1).
+//!
+//! Operands are GLWE objects with harness-chosen contents (normalised random digits, extreme digits); their exact
+//! *unreduced* phases under a clear secret are computed with big integers (R3). Oracle:
+//!   * every column of the tensor equals the exact negacyclic product of the operand columns (masked to their
+//!     effective precisions) times 2^cnv_offset modulo 1; the tensor decrypted with the secret tensor (s_i*s_j
+//!     computed here by the schoolbook product) equals phase(a) * phase(b) * 2^cnv_offset modulo 1;
+//!   * exact whenever the result holds the whole product ((a_size+b_size)*base2k - cnv_offset bits); otherwise
+//!     within the worst-case truncation bound derived below (no random noise is involved: all error is rounding);
+//!   * squaring == multiplying a ciphertext by itself, bit for bit; add_assign adds exactly what apply produces;
+//!   * the relinearised tensor decrypts under s to the tensor's phase within the worst-case gadget bound (R9);
+//!   * mul_plain / mul_const (+assign): phase(res) == phase(a) * plaintext * 2^cnv_offset.
 
-use pvc_engine::Run;
-use serde_json::Value;
+use crate::util::*;
+use poulpy_core::layouts::{
+    Base2K, Degree, Dnum, Dsize, GLWESecret, GLWETensor, GLWETensorKey, GLWETensorKeyLayout, LWEInfos, Rank, TorusPrecision,
+};
+use poulpy_core::{
+    EncryptionLayout, GLWEMulConst, GLWEMulPlain, GLWETensorKeyEncryptSk, GLWETensoring, ScratchTakeCore,
+    layouts::GLWETensorKeyPreparedFactory,
+};
+use poulpy_hal::layouts::{Module, Scratch, ZnxInfos, ZnxView, ZnxViewMut};
+use poulpy_hal::source::Source;
+use pvc_common::phase::{Dist, clear_secret};
+use pvc_common::{Bk, CoreAll, Family, HalAll, for_backends};
+use pvc_engine::rng::{Rng, garbage};
+use pvc_engine::{Rec, Run, Tier, fnv, guarded};
+use pvc_model::IBig;
+use serde::{Deserialize, Serialize};
+use serde_json::{Value, json};
 
-pub fn run(_run: &mut Run) {
-    panic!("C05: not implemented yet");
+const MIB: usize = 1 << 20;
+
+fn bytes_of(x: &mut [i64]) -> &mut [u8] {
+    // SAFETY: plain reinterpretation of an i64 slice as bytes
+    unsafe { std::slice::from_raw_parts_mut(x.as_mut_ptr() as *mut u8, x.len() * 8) }
 }
 
-pub fn replay(_run: &mut Run, _d: &Value) {
-    panic!("C05: not implemented yet");
+/// floor(x / 2^s) * 2^s
+fn floor_to(x: &IBig, s: usize) -> IBig {
+    if s == 0 {
+        return x.clone();
+    }
+    let m: IBig = IBig::from(1) << s;
+    let mut r = x % &m;
+    if r < IBig::from(0) {
+        r += &m;
+    }
+    x - r
+}
+
+/// column values scaled by 2^(size*b), truncated (floor) to `k_eff` fractional bits: the operand at its effective precision
+fn masked_col(g: &poulpy_hal::layouts::VecZnx<Vec<u8>>, col: usize, b: usize, k_eff: usize) -> Poly {
+    let drop = g.size() * b - k_eff;
+    col_vals(g, col, b).iter().map(|x| floor_to(x, drop)).collect()
+}
+
+/// clear secret with s[0] = 1 and the products s_i * s_j by the schoolbook negacyclic product
+pub struct Sec {
+    pub s: Vec<Vec<i64>>,
+    pub rank: usize,
+}
+
+fn seed_of(n: usize, rank: usize) -> [u8; 32] {
+    let mut s = [0u8; 32];
+    s[0] = 0xC5;
+    s[1] = n as u8;
+    s[2] = rank as u8;
+    s
+}
+
+impl Sec {
+    pub fn new(n: usize, rank: usize) -> Self {
+        let mut s = vec![vec![0i64; n]];
+        s[0][0] = 1;
+        s.extend(clear_secret(n, rank, Dist::TernaryProb, seed_of(n, rank)));
+        Sec { s, rank }
+    }
+    pub fn cols(&self) -> usize {
+        self.rank + 1
+    }
+    pub fn mono(&self, i: usize, j: usize) -> Vec<i64> {
+        small_mul(&self.s[i], &self.s[j])
+    }
+    /// 1 + sum |s_i|_1
+    pub fn s_norm(&self) -> u64 {
+        self.s.iter().map(|x| l1(x)).sum()
+    }
+}
+
+/// column of the tensor holding the coefficient of s_i*s_j (i <= j; s_0 = 1)
+pub fn tidx(cols: usize, i: usize, j: usize) -> usize {
+    i * cols - (i * (i + 1)) / 2 + j
+}
+
+/// exact unreduced phase of a tensor (scaled by 2^(size*b)) under the secret tensor
+pub fn tensor_phase(t: &GLWETensor<Vec<u8>>, sec: &Sec) -> Poly {
+    let b = t.base2k().0 as usize;
+    let cols = sec.cols();
+    let n = t.n().0 as usize;
+    let mut acc = pzero(n);
+    for i in 0..cols {
+        for j in i..cols {
+            let c = col_vals(t.data(), tidx(cols, i, j), b);
+            acc = padd(&acc, &pmul_small(&c, &sec.mono(i, j)));
+        }
+    }
+    acc
+}
+
+pub fn glwe_phase_sec(g: &poulpy_hal::layouts::VecZnx<Vec<u8>>, b: usize, sec: &Sec) -> Poly {
+    pvc_common::phase::glwe_phase(g, b, &sec.s[1..])
+}
+
+/// radices inside the backend's magnitude domain (FFT64: N * terms * 4 * 2^(2b) <= 2^50 ; NTT120: wide accumulators)
+fn radices<B: Bk>(tier: Tier) -> Vec<usize> {
+    match (B::FAMILY, tier) {
+        (Family::Fft64, Tier::Quick) => vec![4, 17],
+        (Family::Fft64, Tier::Thorough) => vec![4, 8, 12, 17],
+        (Family::Ntt120, Tier::Quick) => vec![4, 40],
+        (Family::Ntt120, Tier::Thorough) => vec![4, 8, 17, 40],
+    }
+}
+
+/// effective precisions (a_k, b_k) for sizes (a_size, b_size): every residue of a_k, with b_k on a different residue
+fn eff_pairs(b: usize, a_size: usize, b_size: usize, tier: Tier) -> Vec<(usize, usize)> {
+    let res: Vec<usize> = if b <= 4 || (tier.is_thorough() && b <= 8) {
+        (1..=b).collect()
+    } else if tier.is_thorough() {
+        let mut v = vec![1, 2, 3, b / 2, b / 2 + 1, b - 2, b - 1, b];
+        v.sort();
+        v.dedup();
+        v
+    } else {
+        let mut v = vec![1, 2, b / 2, b - 1, b];
+        v.sort();
+        v.dedup();
+        v
+    };
+    let mut out = vec![];
+    for (x, &ra) in res.iter().enumerate() {
+        // b's residue: a different one (a_k != b_k is the interesting case), walking through all residues too
+        let rb = res[(x + 1 + x % 3) % res.len()];
+        let a_k = (a_size - 1) * b + ra;
+        let mut b_k = (b_size - 1) * b + rb;
+        if a_k == b_k {
+            b_k = (b_size - 1) * b + res[(x + 2) % res.len()];
+        }
+        out.push((a_k, b_k));
+    }
+    // both full
+    out.push((a_size * b, b_size * b));
+    out.sort();
+    out.dedup();
+    out
+}
+
+#[derive(Clone, Copy, Debug, PartialEq, Eq)]
+enum Regime {
+    Exact,
+    Truncating,
+}
+
+struct ColVerdict {
+    regime: Regime,
+    err_units: f64,
+    tol_units: f64,
+    col: usize,
+    index: usize,
+    level: &'static str,
+}
+
+/// compares `got` (scaled 2^r_bits) with `want` (scaled 2^l_want) modulo 1; tolerance in units of 2^-r_bits
+fn compare(got: &Poly, r_bits: usize, want: &Poly, l_want: usize, tol_units: &IBig) -> Option<(f64, usize)> {
+    let l = r_bits.max(l_want) + 2;
+    let w = pshl(want, l - l_want);
+    let (worst, at) = max_torus_err(got, r_bits, &w, l);
+    let tol: IBig = tol_units << (l - r_bits);
+    if worst > tol { Some((approx_units(&worst, l - r_bits), at)) } else { None }
+}
+
+fn classify(c: usize, b: usize, b_res: usize, r_bits: usize) -> Value {
+    // the library splits the offset: cnv_offset < base2k is served by a *negative* normalisation offset
+    let lo_neg = c < b;
+    json!({
+        "cross_radix": b != b_res,
+        "offset_negative": lo_neg,
+        "shift_beyond_output_bits": if lo_neg { ((b - c) as i64 - r_bits as i64).max(0) } else { 0 },
+    })
+}
+
+fn merge(mut d: Value, extra: Value) -> Value {
+    for (k, v) in extra.as_object().unwrap() {
+        d[k] = v.clone();
+    }
+    d
+}
+
+// ---------------------------------------------------------------------------------------------
+// tensor product: apply, add_assign, square
+// ---------------------------------------------------------------------------------------------
+
+#[derive(Clone, Debug, Serialize, Deserialize)]
+pub struct TCase {
+    pub backend: String,
+    pub n: usize,
+    pub rank: usize,
+    pub b: usize,
+    pub b_res: usize,
+    pub a_size: usize,
+    pub b_size: usize,
+    pub res_size: usize,
+    pub a_k: usize,
+    pub b_k: usize,
+    pub val: usize,
+    pub square: bool,
+}
+
+/// worst case of what the discarded convolution limbs can carry, in units of the last result limb: the library
+/// keeps the convolution limbs that overlap the result window only; a discarded un-normalised limb is bounded by
+/// N * min(a_size, b_size) * 2^(2(b-1)) (x4 for the pairwise product of column sums) and sits at most one limb
+/// below the window
+fn guard_units(n: usize, terms: usize, b: usize) -> IBig {
+    IBig::from(n * terms) << (b - 1)
+}
+
+pub fn cmax(res_size: usize, a_size: usize, b_size: usize, b: usize) -> usize {
+    ((res_size + 1) * b).min((a_size + b_size) * b)
+}
+
+/// cnv_offset values enumerated: all of 0..=cmax for radices up to 17; larger radices take every offset up to
+/// 2*base2k+2, every offset within 2 of a multiple of base2k, every 7th (thorough: every 3rd), and cmax
+pub fn offsets(cmax: usize, b: usize, tier: Tier) -> Vec<usize> {
+    (0..=cmax)
+        .filter(|&c| b <= 17 || c <= 2 * b + 2 || c % b <= 2 || c % b >= b - 2 || c % (if tier.is_thorough() { 3 } else { 7 }) == 0 || c == cmax)
+        .collect()
+}
+
+pub fn exec_tensor<B: Bk>(c: &TCase, only: Option<(usize, usize)>, seed: u64, tier: Tier, rec: &mut Rec)
+where
+    Module<B>: HalAll<B> + CoreAll<B>,
+    Scratch<B>: ScratchTakeCore<B>,
+{
+    let m = B::module(c.n);
+    let sec = Sec::new(c.n, c.rank);
+    let cols = c.rank + 1;
+    let ncols_t = cols * (cols + 1) / 2;
+    let key = fnv(format!("{:?}", c).as_bytes());
+    rec.distinct(key);
+    rec.sample(|| serde_json::to_value(c).unwrap());
+    let mut rng = Rng::new(seed, key);
+    let mut a = glwe_alloc(c.n, c.b, c.a_size, c.rank);
+    fill_class(a.data_mut(), c.b, c.val, &mut rng);
+    let b_ct = if c.square {
+        glwe_clone(&a)
+    } else {
+        let mut x = glwe_alloc(c.n, c.b, c.b_size, c.rank);
+        fill_class(x.data_mut(), c.b, c.val, &mut rng);
+        x
+    };
+    let (a_bits, b_bits) = (c.a_size * c.b, c.b_size * c.b);
+    let l = a_bits + b_bits;
+    let r_bits = c.res_size * c.b_res;
+    let ac: Vec<Poly> = (0..cols).map(|i| masked_col(a.data(), i, c.b, c.a_k)).collect();
+    let bc: Vec<Poly> = (0..cols).map(|i| masked_col(b_ct.data(), i, c.b, c.b_k)).collect();
+    // exact column products, scaled by 2^l
+    let mut want_cols: Vec<Poly> = vec![pzero(c.n); ncols_t];
+    for i in 0..cols {
+        for j in i..cols {
+            want_cols[tidx(cols, i, j)] = if i == j { pmul(&ac[i], &bc[i]) } else { padd(&pmul(&ac[i], &bc[j]), &pmul(&ac[j], &bc[i])) };
+        }
+    }
+    // exact phases of the (masked) operands and their product
+    let mut pa = pzero(c.n);
+    let mut pb = pzero(c.n);
+    for i in 0..cols {
+        pa = padd(&pa, &pmul_small(&ac[i], &sec.s[i]));
+        pb = padd(&pb, &pmul_small(&bc[i], &sec.s[i]));
+    }
+    let want_phase = pmul(&pa, &pb);
+    let g_units = guard_units(c.n, c.a_size.min(c.b_size), c.b);
+    let mut reported: Vec<String> = vec![];
+    let bytes = m.glwe_tensor_apply_tmp_bytes(&tensor_alloc(c.n, c.b_res, c.res_size, c.rank), &a, &b_ct)
+        .max(m.glwe_tensor_square_apply_tmp_bytes(&tensor_alloc(c.n, c.b_res, c.res_size, c.rank), &a))
+        + MIB;
+    for cnv in offsets(cmax(c.res_size, c.a_size, c.b_size, c.b), c.b, if only.is_some() { Tier::Thorough } else { tier }) {
+        for g in 0..2usize {
+            if let Some(o) = only {
+                if o != (cnv, g) {
+                    continue;
+                }
+            } else if !tier.is_thorough() && g != (cnv & 1) {
+                continue;
+            }
+            let inner = json!({"cnv_offset": cnv, "g": g});
+            let mut fail = |rec: &mut Rec, op: &str, kind: &str, extra: Value| {
+                let sig = format!("{op}|{kind}");
+                if reported.contains(&sig) {
+                    rec.add("failures_not_itemised", 1);
+                    return;
+                }
+                reported.push(sig);
+                let d = json!({"op": op, "backend": B::NAME, "kind": kind, "case": c, "inner": inner});
+                rec.fail(merge(merge(d, classify(cnv, c.b, c.b_res, r_bits)), extra));
+            };
+            let mut res = tensor_alloc(c.n, c.b_res, c.res_size, c.rank);
+            garbage(bytes_of(res.data_mut().raw_mut()), g);
+            let out = guarded(|| with_scratch::<B, _>(bytes, g, |s| m.glwe_tensor_apply(cnv, &mut res, &a, c.a_k, &b_ct, c.b_k, s)));
+            rec.evals(1);
+            if let Err(msg) = out {
+                fail(rec, "glwe_tensor_apply", "panic", json!({"panic": msg}));
+                continue;
+            }
+            // ---- columns
+            let exact = r_bits + cnv >= l;
+            let regime = if exact { Regime::Exact } else { Regime::Truncating };
+            let mut verdict: Option<ColVerdict> = None;
+            let mut tol_sum = IBig::from(0);
+            for i in 0..cols {
+                for j in i..cols {
+                    let t = tidx(cols, i, j);
+                    let tol: IBig = if exact {
+                        IBig::from(0)
+                    } else if i == j {
+                        IBig::from(1) + &g_units
+                    } else {
+                        // pairwise term (column sums: x4) minus the two diagonal terms: three rounded terms
+                        IBig::from(3) + IBig::from(6) * &g_units
+                    };
+                    tol_sum += &tol * IBig::from(l1(&sec.mono(i, j)));
+                    if verdict.is_some() {
+                        continue;
+                    }
+                    let got = col_vals(res.data(), t, c.b_res);
+                    let want = pshl(&want_cols[t], cnv);
+                    if !exact {
+                        if tol >= (IBig::from(1) << (r_bits - 1)) {
+                            rec.add("columns_with_vacuous_tolerance", 1);
+                        } else {
+                            rec.add("columns_judged_in_truncating_regime", 1);
+                            // how often is the allowance for the discarded limbs actually used?
+                            let principled = IBig::from(if i == j { 1 } else { 3 });
+                            if compare(&got, r_bits, &want, l, &principled).is_some() {
+                                rec.add("columns_beyond_rounding_only_tolerance", 1);
+                            }
+                        }
+                    }
+                    if let Some((err, at)) = compare(&got, r_bits, &want, l, &tol) {
+                        verdict = Some(ColVerdict {
+                            regime,
+                            err_units: err,
+                            tol_units: approx_units(&tol, 0),
+                            col: t,
+                            index: at,
+                            level: "column",
+                        });
+                    }
+                }
+            }
+            // ---- phase under the secret tensor
+            if verdict.is_none() {
+                let got = tensor_phase(&res, &sec);
+                let want = pshl(&want_phase, cnv);
+                if let Some((err, at)) = compare(&got, r_bits, &want, l, &tol_sum) {
+                    verdict = Some(ColVerdict {
+                        regime,
+                        err_units: err,
+                        tol_units: approx_units(&tol_sum, 0),
+                        col: 0,
+                        index: at,
+                        level: "phase",
+                    });
+                }
+            }
+            if let Some(v) = verdict {
+                let kind = if v.regime == Regime::Exact { "wrong_value" } else { "noise_too_large" };
+                fail(
+                    rec,
+                    "glwe_tensor_apply",
+                    kind,
+                    json!({"level": v.level, "col": v.col, "index": v.index, "err_units": v.err_units, "tol_units": v.tol_units,
+                        "regime": format!("{:?}", v.regime)}),
+                );
+                continue;
+            }
+            if !exact {
+                rec.add("truncating_regime", 1);
+            }
+            if g == 0 {
+                rec.outcome(pvc_engine::hash_i64s(res.data().at(0, 0)));
+            }
+            // ---- add_assign adds exactly what apply produces
+            {
+                let mut acc = tensor_alloc(c.n, c.b_res, c.res_size, c.rank);
+                fill_class(acc.data_mut(), c.b_res, 0, &mut rng);
+                let acc0: Vec<i64> = acc.data().raw().to_vec();
+                let out = guarded(|| {
+                    with_scratch::<B, _>(bytes, 1 - g, |s| m.glwe_tensor_apply_add_assign(cnv, &mut acc, &a, c.a_k, &b_ct, c.b_k, s))
+                });
+                rec.evals(1);
+                match out {
+                    Err(msg) => fail(rec, "glwe_tensor_apply_add_assign", "panic", json!({"panic": msg})),
+                    Ok(()) => {
+                        let prod = res.data().raw();
+                        if let Some(at) = acc.data().raw().iter().enumerate().position(|(x, v)| *v != acc0[x].wrapping_add(prod[x])) {
+                            fail(
+                                rec,
+                                "glwe_tensor_apply_add_assign",
+                                "add_assign_mismatch",
+                                json!({"raw_index": at, "got": acc.data().raw()[at], "prior": acc0[at], "product": prod[at]}),
+                            );
+                        }
+                    }
+                }
+            }
+            // ---- squaring equals multiplying the ciphertext by itself, bit for bit
+            if c.square {
+                let mut sq = tensor_alloc(c.n, c.b_res, c.res_size, c.rank);
+                garbage(bytes_of(sq.data_mut().raw_mut()), 1 - g);
+                let out = guarded(|| with_scratch::<B, _>(bytes, g, |s| m.glwe_tensor_square_apply(cnv, &mut sq, &a, c.a_k, s)));
+                rec.evals(1);
+                match out {
+                    Err(msg) => fail(rec, "glwe_tensor_square_apply", "panic", json!({"panic": msg})),
+                    Ok(()) => {
+                        if let Some(at) = sq.data().raw().iter().zip(res.data().raw()).position(|(x, y)| x != y) {
+                            fail(
+                                rec,
+                                "glwe_tensor_square_apply",
+                                "square_mismatch",
+                                json!({"raw_index": at, "square": sq.data().raw()[at], "apply": res.data().raw()[at]}),
+                            );
+                        }
+                    }
+                }
+            }
+        }
+    }
+}
+
+fn res_sizes(full: usize, tier: Tier) -> Vec<usize> {
+    // below / equal / above the full product (a_size + b_size limbs)
+    let mut v: Vec<usize> = if tier.is_thorough() { (1..=full + 1).collect() } else { vec![1, 2, full.saturating_sub(1).max(1), full, full + 1] };
+    v.sort();
+    v.dedup();
+    v
+}
+
+fn tensor_cases<B: Bk>(tier: Tier) -> Vec<TCase> {
+    let mut out = vec![];
+    let smax = tier.pick(3usize, 4usize);
+    for square in [false, true] {
+        for &n in tier.pick(&[8usize][..], &[8usize, 16][..]) {
+            for rank in 1..=2usize {
+                for &b in &radices::<B>(tier) {
+                    let b_res_set: Vec<usize> = if tier.is_thorough() { vec![b, b - 1, b + 1] } else { vec![b, b - 1] };
+                    for &b_res in &b_res_set {
+                        for a_size in 1..=smax {
+                            for b_size in 1..=(if square { 1 } else { smax }) {
+                                let b_size = if square { a_size } else { b_size };
+                                if !tier.is_thorough() && b_res != b && (a_size + b_size) % 2 == 1 {
+                                    continue;
+                                }
+                                for res_size in res_sizes(a_size + b_size, tier) {
+                                    for (a_k, b_k) in eff_pairs(b, a_size, b_size, tier) {
+                                        let b_k = if square { a_k } else { b_k };
+                                        // thorough: the radix product is large; cross-radix results take a residues subset
+                                        if tier.is_thorough() && b >= 12 && b_res != b && !(a_k % b <= 1 || a_k % b == b - 1) {
+                                            continue;
+                                        }
+                                        // N = 16 (thorough): sizes <= 3, equal radices
+                                        if n == 16 && (a_size > 3 || b_size > 3 || b_res != b) {
+                                            continue;
+                                        }
+                                        for val in 0..2usize {
+                                            if rank == 2 && val == 1 {
+                                                continue;
+                                            }
+                                            out.push(TCase {
+                                                backend: B::NAME.into(),
+                                                n,
+                                                rank,
+                                                b,
+                                                b_res,
+                                                a_size,
+                                                b_size,
+                                                res_size,
+                                                a_k,
+                                                b_k,
+                                                val,
+                                                square,
+                                            });
+                                        }
+                                    }
+                                }
+                            }
+                        }
+                    }
+                }
+            }
+        }
+    }
+    // N = 16 in the quick tier: one slice
+    if !tier.is_thorough() {
+        for rank in 1..=2usize {
+            for &b in &radices::<B>(tier) {
+                for (a_size, b_size, res_size) in [(2usize, 2usize, 3usize), (3, 1, 2), (1, 2, 4)] {
+                    for (a_k, b_k) in eff_pairs(b, a_size, b_size, tier) {
+                        out.push(TCase {
+                            backend: B::NAME.into(),
+                            n: 16,
+                            rank,
+                            b,
+                            b_res: b,
+                            a_size,
+                            b_size,
+                            res_size,
+                            a_k,
+                            b_k,
+                            val: 0,
+                            square: false,
+                        });
+                    }
+                }
+            }
+        }
+    }
+    out
+}
+
+fn fam_tensor<B: Bk>(run: &mut Run)
+where
+    Module<B>: HalAll<B> + CoreAll<B>,
+    Scratch<B>: ScratchTakeCore<B>,
+{
+    let seed = run.seed;
+    let tier = run.tier;
+    let cs = tensor_cases::<B>(tier);
+    run.family(
+        &format!("tensor/{}", B::NAME),
+        "outer = (square?, N, rank, operand radix, result radix, a/b/res sizes, effective precisions a_k != b_k over the residues, value class); inner = every cnv_offset 0..min((res_size+1)*b, (a_size+b_size)*b) x garbage fill; per inner: glwe_tensor_apply judged column by column and through the secret tensor against the exact product of the operand phases, glwe_tensor_apply_add_assign == prior + apply limb for limb, glwe_tensor_square_apply == apply(a, a) bit for bit",
+        cs,
+        |c, rec| exec_tensor::<B>(c, None, seed, tier, rec),
+    );
+}
+
+// ---------------------------------------------------------------------------------------------
+// relinearisation
+// ---------------------------------------------------------------------------------------------
+
+#[derive(Clone, Debug, Serialize, Deserialize)]
+pub struct RCase {
+    pub backend: String,
+    pub n: usize,
+    pub rank: usize,
+    /// radix of the tensor
+    pub b: usize,
+    pub b_key: usize,
+    pub b_res: usize,
+    pub t_size: usize,
+    pub res_size: usize,
+    pub dsize: usize,
+    pub dnum: usize,
+    pub key_size: usize,
+}
+
+const BOUND_XE: u64 = 20; // ceil(6 * 3.2): the truncation bound of the error sampler
+
+pub fn exec_relin<B: Bk>(c: &RCase, only: Option<(usize, usize)>, seed: u64, rec: &mut Rec)
+where
+    Module<B>: HalAll<B> + CoreAll<B>,
+    Scratch<B>: ScratchTakeCore<B>,
+{
+    let m = B::module(c.n);
+    let sec = Sec::new(c.n, c.rank);
+    let cols = c.rank + 1;
+    let pairs = c.rank * (c.rank + 1) / 2;
+    let key = fnv(format!("{:?}", c).as_bytes());
+    rec.distinct(key);
+    rec.sample(|| serde_json::to_value(c).unwrap());
+    // ---- key material (library), same seed as the harness copy of the secret
+    let mut sk = GLWESecret::alloc(Degree(c.n as u32), Rank(c.rank as u32));
+    sk.fill_ternary_prob(0.5, &mut Source::new(seed_of(c.n, c.rank)));
+    let tsk_layout = GLWETensorKeyLayout {
+        n: Degree(c.n as u32),
+        base2k: Base2K(c.b_key as u32),
+        k: TorusPrecision((c.key_size * c.b_key) as u32),
+        rank: Rank(c.rank as u32),
+        dnum: Dnum(c.dnum as u32),
+        dsize: Dsize(c.dsize as u32),
+    };
+    let enc = EncryptionLayout::new_from_default_sigma(tsk_layout).expect("tensor key layout");
+    let mut tsk = GLWETensorKey::alloc_from_infos(&tsk_layout);
+    let mut xe = Source::new([7u8; 32]);
+    let mut xa = Source::new([9u8; 32]);
+    let mut tsk_prep = m.alloc_tensor_key_prepared_from_infos(&tsk_layout);
+    let keygen = guarded(|| {
+        with_scratch::<B, _>(m.glwe_tensor_key_encrypt_sk_tmp_bytes(&tsk_layout) + MIB, 0, |s| {
+            m.glwe_tensor_key_encrypt_sk(&mut tsk, &sk, &enc, &mut xe, &mut xa, s)
+        });
+        with_scratch::<B, _>(m.prepare_tensor_key_tmp_bytes(&tsk_layout) + MIB, 0, |s| m.prepare_tensor_key(&mut tsk_prep, &tsk, s));
+    });
+    if let Err(msg) = keygen {
+        rec.fail(json!({"op": "glwe_tensor_key_encrypt_sk", "backend": B::NAME, "kind": "panic", "case": c, "inner": {}, "panic": msg}));
+        return;
+    }
+    let r_bits = c.res_size * c.b_res;
+    let t_bits = c.t_size * c.b;
+    let k_bits = c.key_size * c.b_key;
+    if std::env::var("VERIF_DEBUG").is_ok() {
+        use poulpy_core::layouts::GGLWEToRef;
+        let kref = tsk.to_ref();
+        let mut p = 0;
+        for i in 1..cols {
+            for j in i..cols {
+                for t in 0..c.dnum {
+                    let row = vec_owned(kref.at(t, p).data());
+                    let ph = glwe_phase_sec(&row, c.b_key, &sec);
+                    let ideal: Poly = sec.mono(i, j).iter().map(|x| IBig::from(*x) << (k_bits - (t + 1) * c.dsize * c.b_key)).collect();
+                    let (worst, _) = max_torus_err(&ph, k_bits, &ideal, k_bits);
+                    eprintln!("key row pair {p} ({i},{j}) row {t}: max |error| = {} * 2^-{k_bits}", worst);
+                }
+                p += 1;
+            }
+        }
+    }
+    let s_a = t_bits.div_ceil(c.b_key); // limbs of the decomposed pair columns at the key radix
+    let mut reported: Vec<String> = vec![];
+    for src in 0..2usize {
+        for g in 0..2usize {
+            if let Some(o) = only {
+                if o != (src, g) {
+                    continue;
+                }
+            }
+            let inner = json!({"src": src, "g": g});
+            let mut rng = Rng::new(seed, key ^ ((src as u64) << 4) ^ g as u64);
+            // ---- the tensor: arbitrary normalised content (src 0) or the product of two ciphertexts (src 1)
+            let mut t = tensor_alloc(c.n, c.b, c.t_size, c.rank);
+            if src == 0 {
+                fill_class(t.data_mut(), c.b, g, &mut rng);
+            } else {
+                let a_size = c.t_size.min(3);
+                let mut a = glwe_alloc(c.n, c.b, a_size, c.rank);
+                let mut b = glwe_alloc(c.n, c.b, a_size, c.rank);
+                fill_class(a.data_mut(), c.b, g, &mut rng);
+                fill_class(b.data_mut(), c.b, 0, &mut rng);
+                let bytes = m.glwe_tensor_apply_tmp_bytes(&t, &a, &b) + MIB;
+                let out = guarded(|| {
+                    with_scratch::<B, _>(bytes, g, |s| m.glwe_tensor_apply(c.b, &mut t, &a, a_size * c.b, &b, a_size * c.b, s))
+                });
+                if out.is_err() {
+                    continue; // judged by the tensor family
+                }
+            }
+            let want = tensor_phase(&t, &sec);
+            // largest digit of the pair columns (the product's cross columns are sums of three normalised terms)
+            let mut dmax: u64 = 1;
+            for p in 0..pairs {
+                for j in 0..c.t_size {
+                    for x in t.data().at(cols + p, j) {
+                        dmax = dmax.max(x.unsigned_abs());
+                    }
+                }
+            }
+            if c.b != c.b_key {
+                dmax = 1u64 << (c.b_key - 1); // re-normalised into the key radix before decomposition
+            }
+            let mut res = glwe_alloc(c.n, c.b_res, c.res_size, c.rank);
+            garbage(bytes_of(res.data_mut().raw_mut()), g);
+            let bytes = m.glwe_tensor_relinearize_tmp_bytes(&res, &t, &tsk_layout) + MIB;
+            let size = tsk_prep.size();
+            let out = guarded(|| with_scratch::<B, _>(bytes, g, |s| m.glwe_tensor_relinearize(&mut res, &t, &tsk_prep, size, s)));
+            rec.evals(1);
+            let mut fail = |rec: &mut Rec, kind: &str, extra: Value| {
+                let sig = kind.to_string();
+                if reported.contains(&sig) {
+                    rec.add("failures_not_itemised", 1);
+                    return;
+                }
+                reported.push(sig);
+                let d = json!({"op": "glwe_tensor_relinearize", "backend": B::NAME, "kind": kind, "case": c, "inner": inner,
+                    "cross_radix_key": c.b != c.b_key, "cross_radix_res": c.b_res != c.b_key,
+                    "dnum_covers": c.dnum * c.dsize >= s_a, "size_mod_dsize": s_a % c.dsize});
+                rec.fail(merge(d, extra));
+            };
+            if let Err(msg) = out {
+                fail(rec, "panic", json!({"panic": msg}));
+                continue;
+            }
+            // ---- worst-case bound (R9), everything scaled by 2^W
+            let w = t_bits.max(k_bits).max(r_bits).max((c.dnum * c.dsize + 2) * c.b_key) + 64;
+            let one = |bits: usize| -> IBig { IBig::from(1) << (w - bits) }; // 2^-bits
+            let s_norm = IBig::from(sec.s_norm());
+            let mut bound = IBig::from(0);
+            // (1) pair-column limbs beyond dnum*dsize are not decomposed: |tail| <= 2*dmax*2^-((dnum*dsize+1)*b_key)
+            let used = s_a.min(c.dnum * c.dsize);
+            if s_a > c.dnum * c.dsize {
+                let tail: IBig = IBig::from(2 * dmax) * one((c.dnum * c.dsize + 1) * c.b_key);
+                for i in 1..cols {
+                    for j in i..cols {
+                        bound += &tail * IBig::from(l1(&sec.mono(i, j)));
+                    }
+                }
+            }
+            // (2) digit x key error: every used limb m of every pair multiplies a key row whose error is bounded by
+            //     BOUND_XE * 2^-k_enc, amplified by 2^(di*b_key) with di = dsize-1-(m mod dsize)
+            for mm in 0..used {
+                let di = c.dsize - 1 - (mm % c.dsize);
+                let term: IBig = (IBig::from(pairs as u64 * c.n as u64 * BOUND_XE) * IBig::from(dmax)) << (di * c.b_key);
+                bound += term * one(k_bits);
+            }
+            // (3) dsize >= 3: the partial products of the low digits are accumulated without their last dsize-di-2 limbs
+            if c.dsize >= 3 {
+                for di in 0..c.dsize - 2 {
+                    let cut = c.key_size - (c.dsize - di - 2);
+                    let lost: IBig = (IBig::from(2 * pairs as u64 * c.dnum as u64 * c.n as u64) * IBig::from(dmax)) << (c.b_key - 1);
+                    bound += lost * one((cut + 1) * c.b_key) * &s_norm;
+                }
+            }
+            // (4) the GLWE part of the tensor is added at the key's size; (5) one rounding into the result
+            if s_a > c.key_size {
+                bound += IBig::from(2 * dmax) * one((c.key_size + 1) * c.b_key) * &s_norm;
+            }
+            // (the conversion of the tensor into the key's radix is exact: the converted operand holds >= t_bits bits)
+            bound += one(r_bits) * &s_norm;
+            if bound >= one(3) {
+                rec.add("vacuous_bound", 1);
+                continue;
+            }
+            let got = glwe_phase_sec(res.data(), c.b_res, &sec);
+            let wv = pshl(&want, w - t_bits);
+            let (worst, at) = max_torus_err(&got, r_bits, &wv, w);
+            rec.outcome(pvc_engine::hash_i64s(res.data().at(0, 0)));
+            if worst > bound {
+                // classification: does the violation disappear when the scratch arena is zero-filled?
+                let mut res0 = glwe_alloc(c.n, c.b_res, c.res_size, c.rank);
+                let zero_ok = guarded(|| with_scratch::<B, _>(bytes, 2, |s| m.glwe_tensor_relinearize(&mut res0, &t, &tsk_prep, size, s)))
+                    .map(|_| {
+                        let got0 = glwe_phase_sec(res0.data(), c.b_res, &sec);
+                        max_torus_err(&got0, r_bits, &wv, w).0 <= bound
+                    })
+                    .unwrap_or(false);
+                fail(
+                    rec,
+                    "noise_too_large",
+                    json!({"index": at, "err_log2": approx_units(&worst, 0).log2() - w as f64, "bound_log2": approx_units(&bound, 0).log2() - w as f64,
+                        "dmax": dmax, "passes_with_zero_scratch": zero_ok}),
+                );
+            } else {
+                // how much of the bound is used (diagnostic)
+                let used_pct = if bound > IBig::from(0) { approx_units(&(worst * IBig::from(1000)), 0) / approx_units(&bound, 0) } else { 0.0 };
+                if used_pct > 500.0 {
+                    rec.add("error_above_half_of_bound", 1);
+                }
+            }
+        }
+    }
+}
+
+fn relin_cases<B: Bk>(tier: Tier) -> Vec<RCase> {
+    let mut out = vec![];
+    let keys: Vec<usize> = match B::FAMILY {
+        Family::Fft64 => tier.pick(vec![12, 17], vec![8, 12, 17]),
+        Family::Ntt120 => tier.pick(vec![12, 17], vec![8, 17, 24]),
+    };
+    for &n in &[8usize, 16] {
+        for rank in 1..=2usize {
+            for &b_key in &keys {
+                // tensor radix: the key's, and (cross-radix path) a smaller and a larger one
+                let bts: Vec<usize> = if tier.is_thorough() { vec![b_key, b_key - 1, b_key + 3] } else { vec![b_key, b_key - 1] };
+                for &b in &bts {
+                    for dsize in 1..=3usize {
+                        for t_size in 1..=4usize {
+                            let s_a = (t_size * b).div_ceil(b_key);
+                            let full = s_a.div_ceil(dsize);
+                            // dnum smaller / equal / larger than ceil(size/dsize)
+                            let mut dnums = vec![full, full + 1];
+                            if full > 1 {
+                                dnums.push(full - 1);
+                            }
+                            for dnum in dnums {
+                                // key long enough that its error stays below the last decomposed digit
+                                let key_size = dnum * dsize + dsize + 1;
+                                let rs: Vec<(usize, usize)> = if tier.is_thorough() {
+                                    vec![(b_key, 1), (b_key, t_size), (b_key, key_size), (b_key - 2, t_size + 1), (b, t_size)]
+                                } else {
+                                    vec![(b_key, t_size), (b_key - 2, t_size + 1), (b_key, key_size)]
+                                };
+                                for (b_res, res_size) in rs {
+                                    if !tier.is_thorough() && (dsize == 3 && b != b_key) {
+                                        continue;
+                                    }
+                                    out.push(RCase {
+                                        backend: B::NAME.into(),
+                                        n,
+                                        rank,
+                                        b,
+                                        b_key,
+                                        b_res,
+                                        t_size,
+                                        res_size,
+                                        dsize,
+                                        dnum,
+                                        key_size,
+                                    });
+                                }
+                            }
+                        }
+                    }
+                }
+            }
+        }
+    }
+    out.sort_by_key(|c| format!("{:?}", c));
+    out.dedup_by_key(|c| format!("{:?}", c));
+    out.sort_by_key(|c| (c.n, c.rank, c.t_size, c.dsize, c.dnum, c.b_key, c.b, c.res_size, c.b_res));
+    out
+}
+
+fn fam_relin<B: Bk>(run: &mut Run)
+where
+    Module<B>: HalAll<B> + CoreAll<B>,
+    Scratch<B>: ScratchTakeCore<B>,
+{
+    let seed = run.seed;
+    let cs = relin_cases::<B>(run.tier);
+    run.family(
+        &format!("relinearize/{}", B::NAME),
+        "outer = (N, rank, tensor radix, key radix, result radix, tensor size with every residue modulo dsize, dsize 1..3, dnum below/equal/above ceil(size/dsize), result size below/equal/above); key generated by the library from a secret whose coefficients the harness knows; inner = tensor source (arbitrary normalised content | product of two ciphertexts) x garbage/value class; oracle = phase of the relinearised GLWE under s equals the phase of the tensor under the secret tensor within the worst-case gadget bound",
+        cs,
+        |c, rec| exec_relin::<B>(c, None, seed, rec),
+    );
+}
+
+// ---------------------------------------------------------------------------------------------
+// multiplication by a plaintext polynomial / by a multi-limb constant
+// ---------------------------------------------------------------------------------------------
+
+#[derive(Clone, Debug, Serialize, Deserialize)]
+pub struct MCase {
+    /// "plain" | "plain_assign" | "const" | "const_assign"
+    pub op: String,
+    pub backend: String,
+    pub n: usize,
+    pub rank: usize,
+    pub b: usize,
+    pub b_res: usize,
+    pub a_size: usize,
+    /// plaintext limbs / constant limbs
+    pub p_size: usize,
+    pub res_size: usize,
+    pub a_k: usize,
+    pub p_k: usize,
+    pub val: usize,
+}
+
+pub fn exec_mul<B: Bk>(c: &MCase, only: Option<(usize, usize)>, seed: u64, tier: Tier, rec: &mut Rec)
+where
+    Module<B>: HalAll<B> + CoreAll<B>,
+    Scratch<B>: ScratchTakeCore<B>,
+{
+    let m = B::module(c.n);
+    let sec = Sec::new(c.n, c.rank);
+    let cols = c.rank + 1;
+    let key = fnv(format!("{:?}", c).as_bytes());
+    rec.distinct(key);
+    rec.sample(|| serde_json::to_value(c).unwrap());
+    let mut rng = Rng::new(seed, key);
+    let is_const = c.op.starts_with("const");
+    let assign = c.op.ends_with("assign");
+    let mut a = glwe_alloc(c.n, c.b, c.a_size, c.rank);
+    fill_class(a.data_mut(), c.b, c.val, &mut rng);
+    // plaintext polynomial (extreme digits for val 1) / constant limbs
+    let mut pt = pt_alloc(c.n, c.b, c.p_size);
+    fill_class(pt.data_mut(), c.b, c.val, &mut rng);
+    let h = 1i64 << (c.b - 1);
+    let cst: Vec<i64> = (0..c.p_size)
+        .map(|j| match c.val {
+            0 => rng.digit(c.b),
+            1 => {
+                if j % 2 == 0 {
+                    -h
+                } else {
+                    h - 1
+                }
+            }
+            _ => {
+                if j == 0 {
+                    3.min(h - 1)
+                } else {
+                    0
+                }
+            }
+        })
+        .collect();
+    let (a_bits, p_bits) = (c.a_size * c.b, c.p_size * c.b);
+    let l = a_bits + p_bits;
+    let r_bits = c.res_size * c.b_res;
+    // exact operand values; constants carry no effective precision
+    let ac: Vec<Poly> = (0..cols).map(|i| if is_const { col_vals(a.data(), i, c.b) } else { masked_col(a.data(), i, c.b, c.a_k) }).collect();
+    let pv: Poly = if is_const {
+        let mut v = pzero(c.n);
+        v[0] = pvc_model::torus::value_scaled(&cst, c.b);
+        v
+    } else {
+        masked_col(pt.data(), 0, c.b, c.p_k)
+    };
+    let want_cols: Vec<Poly> = ac.iter().map(|x| pmul(x, &pv)).collect();
+    let mut pa = pzero(c.n);
+    for i in 0..cols {
+        pa = padd(&pa, &pmul_small(&ac[i], &sec.s[i]));
+    }
+    let want_phase = pmul(&pa, &pv);
+    // all four forms are held to one unit of the last result limb (the out-of-place forms size their accumulator
+    // for the whole product; the in-place forms must deliver the same value)
+    let g_units: IBig = IBig::from(0);
+    let opname = match c.op.as_str() {
+        "plain" => "glwe_mul_plain",
+        "plain_assign" => "glwe_mul_plain_assign",
+        "const" => "glwe_mul_const",
+        _ => "glwe_mul_const_assign",
+    };
+    let mut reported: Vec<String> = vec![];
+    for cnv in offsets(cmax(c.res_size, c.a_size, c.p_size, c.b), c.b, if only.is_some() { Tier::Thorough } else { tier }) {
+        for g in 0..2usize {
+            if let Some(o) = only {
+                if o != (cnv, g) {
+                    continue;
+                }
+            } else if !tier.is_thorough() && g != (cnv & 1) {
+                continue;
+            }
+            let inner = json!({"cnv_offset": cnv, "g": g});
+            let mut fail = |rec: &mut Rec, kind: &str, extra: Value| {
+                let sig = kind.to_string();
+                if reported.contains(&sig) {
+                    rec.add("failures_not_itemised", 1);
+                    return;
+                }
+                reported.push(sig);
+                let d = json!({"op": opname, "backend": B::NAME, "kind": kind, "case": c, "inner": inner});
+                rec.fail(merge(merge(d, classify(cnv, c.b, c.b_res, r_bits)), extra));
+            };
+            let mut res = if assign {
+                glwe_clone(&a)
+            } else {
+                let mut r = glwe_alloc(c.n, c.b_res, c.res_size, c.rank);
+                garbage(bytes_of(r.data_mut().raw_mut()), g);
+                r
+            };
+            let out = guarded(|| match c.op.as_str() {
+                "plain" => {
+                    let bytes = m.glwe_mul_plain_tmp_bytes(&res, &a, &pt) + MIB;
+                    with_scratch::<B, _>(bytes, g, |s| m.glwe_mul_plain(cnv, &mut res, &a, c.a_k, &pt, c.p_k, s))
+                }
+                "plain_assign" => {
+                    let bytes = m.glwe_mul_plain_tmp_bytes(&res, &res, &pt) + MIB;
+                    with_scratch::<B, _>(bytes, g, |s| m.glwe_mul_plain_assign(cnv, &mut res, c.a_k, &pt, c.p_k, s))
+                }
+                "const" => {
+                    let bytes = m.glwe_mul_const_tmp_bytes(&res, &a, cst.len()) + MIB;
+                    with_scratch::<B, _>(bytes, g, |s| m.glwe_mul_const(cnv, &mut res, &a, &cst, s))
+                }
+                _ => {
+                    let bytes = m.glwe_mul_const_tmp_bytes(&res, &res, cst.len()) + MIB;
+                    with_scratch::<B, _>(bytes, g, |s| m.glwe_mul_const_assign(cnv, &mut res, &cst, s))
+                }
+            });
+            rec.evals(1);
+            if let Err(msg) = out {
+                fail(rec, "panic", json!({"panic": msg}));
+                continue;
+            }
+            let exact = r_bits + cnv >= l;
+            let tol: IBig = if exact { IBig::from(0) } else { IBig::from(1) + &g_units };
+            let mut verdict: Option<ColVerdict> = None;
+            for i in 0..cols {
+                let got = col_vals(res.data(), i, c.b_res);
+                let want = pshl(&want_cols[i], cnv);
+                if let Some((err, at)) = compare(&got, r_bits, &want, l, &tol) {
+                    verdict = Some(ColVerdict {
+                        regime: if exact { Regime::Exact } else { Regime::Truncating },
+                        err_units: err,
+                        tol_units: approx_units(&tol, 0),
+                        col: i,
+                        index: at,
+                        level: "column",
+                    });
+                    break;
+                }
+            }
+            if verdict.is_none() {
+                let got = glwe_phase_sec(res.data(), c.b_res, &sec);
+                let want = pshl(&want_phase, cnv);
+                let tol_p: IBig = &tol * IBig::from(sec.s_norm());
+                if let Some((err, at)) = compare(&got, r_bits, &want, l, &tol_p) {
+                    verdict = Some(ColVerdict {
+                        regime: if exact { Regime::Exact } else { Regime::Truncating },
+                        err_units: err,
+                        tol_units: approx_units(&tol_p, 0),
+                        col: 0,
+                        index: at,
+                        level: "phase",
+                    });
+                }
+            }
+            match verdict {
+                Some(v) => {
+                    let kind = if v.regime == Regime::Exact { "wrong_value" } else { "noise_too_large" };
+                    fail(
+                        rec,
+                        kind,
+                        json!({"level": v.level, "col": v.col, "index": v.index, "err_units": v.err_units, "tol_units": v.tol_units,
+                            "regime": format!("{:?}", v.regime)}),
+                    );
+                }
+                None => {
+                    if !exact {
+                        rec.add("truncating_regime", 1);
+                    }
+                    if g == 0 {
+                        rec.outcome(pvc_engine::hash_i64s(res.data().at(0, 0)));
+                    }
+                }
+            }
+        }
+    }
+}
+
+fn mul_cases<B: Bk>(tier: Tier) -> Vec<MCase> {
+    let mut out = vec![];
+    let smax = tier.pick(3usize, 4usize);
+    for op in ["plain", "plain_assign", "const", "const_assign"] {
+        let is_const = op.starts_with("const");
+        let assign = op.ends_with("assign");
+        for &n in tier.pick(&[8usize][..], &[8usize, 16][..]) {
+            for rank in 1..=2usize {
+                for &b in &radices::<B>(tier) {
+                    let b_res_set: Vec<usize> = if assign { vec![b] } else { vec![b, b - 1] };
+                    for &b_res in &b_res_set {
+                        for a_size in 1..=smax {
+                            for p_size in 1..=(if is_const { 3 } else { smax }) {
+                                let sizes: Vec<usize> = if assign { vec![a_size] } else { res_sizes(a_size + p_size, tier) };
+                                for res_size in sizes {
+                                    let effs: Vec<(usize, usize)> =
+                                        if is_const { vec![(a_size * b, p_size * b)] } else { eff_pairs(b, a_size, p_size, tier) };
+                                    for (a_k, p_k) in effs {
+                                        if b_res != b && a_k % b != 1 && a_k % b != 0 {
+                                            continue;
+                                        }
+                                        if n == 16 && (a_size > 2 || p_size > 2 || b_res != b) {
+                                            continue;
+                                        }
+                                        for val in 0..(if is_const { 3usize } else { 2usize }) {
+                                            if rank == 2 && val == 0 && !is_const {
+                                                continue;
+                                            }
+                                            out.push(MCase {
+                                                op: op.into(),
+                                                backend: B::NAME.into(),
+                                                n,
+                                                rank,
+                                                b,
+                                                b_res,
+                                                a_size,
+                                                p_size,
+                                                res_size,
+                                                a_k,
+                                                p_k,
+                                                val,
+                                            });
+                                        }
+                                    }
+                                }
+                            }
+                        }
+                    }
+                }
+            }
+        }
+    }
+    out
+}
+
+fn fam_mul<B: Bk>(run: &mut Run)
+where
+    Module<B>: HalAll<B> + CoreAll<B>,
+    Scratch<B>: ScratchTakeCore<B>,
+{
+    let seed = run.seed;
+    let tier = run.tier;
+    let cs = mul_cases::<B>(tier);
+    run.family(
+        &format!("mul_plain_const/{}", B::NAME),
+        "outer = (glwe_mul_plain | _assign | glwe_mul_const | _assign, N, rank, radix, result radix, ciphertext / plaintext (constant: 1..3 limbs) / result sizes, effective precisions over the residues, value class incl. extreme digits); inner = every cnv_offset x garbage fill; oracle = every column and the phase equal (operand at its effective precision) x plaintext x 2^cnv_offset modulo 1: exact when the result holds the whole product, else one unit of the last limb",
+        cs,
+        |c, rec| exec_mul::<B>(c, None, seed, tier, rec),
+    );
+}
+
+pub fn run(run: &mut Run) {
+    run.assume("operands hold normalised digits; a_effective_k / b_effective_k satisfy ceil(k/base2k) == size (asserted by the API) and are modelled as truncation (floor) of the operand to k fractional bits");
+    run.assume("cnv_offset ranges over 0..=min((res_size+1)*base2k, (a_size+b_size)*base2k): beyond (a_size+b_size)*base2k the product is 0 modulo 1 and the library's size arithmetic (a.size()+b.size()-cnv_offset_hi) is outside its domain");
+    run.assume("predicted noise of the truncating regime (result shorter than the exact product): the tensor operations keep only the convolution limbs that overlap the result window (ceil((res_bits + intra-limb offset)/base2k) limbs), so the carries of the discarded un-normalised limbs are lost: up to N*min(a_size,b_size)*2^(base2k-1) units of the last result limb per rounded term (x4 for the pairwise cross term, 3 rounded terms per cross column); this is granted as predicted noise. glwe_mul_plain(_assign) and glwe_mul_const(_assign) are held to one unit. When the result can hold the whole product, exact equality is demanded");
+    run.assume("radices inside the backend magnitude domain: FFT64 base2k <= 17 (N*terms*4*2^(2*base2k) <= 2^50), NTT120 base2k <= 40; relinearisation keys use base2k in {8,12,17,24} with key size dnum*dsize+dsize+1 limbs so that the worst-case bound stays below 2^-3 (cases whose bound is larger are counted as vacuous, not judged)");
+    run.assume("scratch = companion query + 1 MiB (sizing of the queries belongs to C12)");
+    for_backends!(fam_tensor(run));
+    for_backends!(fam_relin(run));
+    for_backends!(fam_mul(run));
+}
+
+pub fn replay(run: &mut Run, d: &Value) {
+    let backend = d["backend"].as_str().unwrap_or("").to_string();
+    let fam = d["family"].as_str().unwrap_or("").to_string();
+    let seed = d["seed"].as_u64().unwrap_or(0);
+    let i = &d["inner"];
+    macro_rules! go {
+        ($B:ty) => {{
+            if fam.starts_with("tensor") {
+                let c: TCase = serde_json::from_value(d["case"].clone()).unwrap();
+                let only = match (i["cnv_offset"].as_u64(), i["g"].as_u64()) {
+                    (Some(p), Some(g)) => Some((p as usize, g as usize)),
+                    _ => None,
+                };
+                run.single(&fam, "replay", |rec| exec_tensor::<$B>(&c, only, seed, Tier::Thorough, rec));
+            } else if fam.starts_with("relinearize") {
+                let c: RCase = serde_json::from_value(d["case"].clone()).unwrap();
+                let only = match (i["src"].as_u64(), i["g"].as_u64()) {
+                    (Some(p), Some(g)) => Some((p as usize, g as usize)),
+                    _ => None,
+                };
+                run.single(&fam, "replay", |rec| exec_relin::<$B>(&c, only, seed, rec));
+            } else {
+                let c: MCase = serde_json::from_value(d["case"].clone()).unwrap();
+                let only = match (i["cnv_offset"].as_u64(), i["g"].as_u64()) {
+                    (Some(p), Some(g)) => Some((p as usize, g as usize)),
+                    _ => None,
+                };
+                run.single(&fam, "replay", |rec| exec_mul::<$B>(&c, only, seed, Tier::Thorough, rec));
+            }
+        }};
+    }
+    match backend.as_str() {
+        "fft64-ref" => go!(pvc_common::FFT64Ref),
+        "ntt120-ref" => go!(pvc_common::NTT120Ref),
+        "fft64-avx" => go!(pvc_common::FFT64Avx),
+        "ntt120-avx" => go!(pvc_common::NTT120Avx),
+        o => panic!("unknown backend {o}"),
+    }
 }
